@@ -196,15 +196,15 @@ Proof.
   exists c, t. split; [reflexivity|]. cbn [all_digits] in Hd. apply andb_true_iff in Hd. tauto.
 Qed.
 
-Lemma parse_indirect_emitted : forall fuel total file off k objs ren v tail,
+Lemma parse_indirect_emitted : forall fuel total file off len_of k objs ren v tail,
   at_off file off = obj_header k ++ unparse wm_unparse_string wm_unparse_name objs ren v ++ s_endobj ++ tail ->
   wf_wobj v -> (forall id, 0 < ren id) ->
   (length (unparse wm_unparse_string wm_unparse_name objs ren v) < fuel)%nat ->
-  parse_indirect fuel total file off (fun _ => None)
+  parse_indirect fuel total file off len_of
   = inl (Some {| so_num := k; so_gen := 0; so_where := XInUse off 0;
                  so_val := to_pobj objs ren v; so_stream := None; so_end := offset_of total tail |}).
 Proof.
-  intros fuel total file off k objs ren v tail Hat Hwf Hren Hfuel.
+  intros fuel total file off len_of k objs ren v tail Hat Hwf Hren Hfuel.
   set (U := unparse wm_unparse_string wm_unparse_name objs ren v) in *.
   set (E := 10 :: 101 :: 110 :: 100 :: 111 :: 98 :: 106 :: 10 :: tail).
   assert (Hs : at_off file off = dec_of_N k ++ 32 :: 48 :: 32 :: 111 :: 98 :: 106 :: 10 :: U ++ E).
@@ -349,20 +349,20 @@ Proof. reflexivity. Qed.
 Definition s_stream_kw : list N := [10; 115; 116; 114; 101; 97; 109; 10].
 Definition s_endstream_kw : list N := [101; 110; 100; 115; 116; 114; 101; 97; 109].
 
-Lemma parse_indirect_emitted_stream : forall fuel total file off k objs ren o' dct data tail,
+Lemma parse_indirect_emitted_stream : forall fuel total file off len_of k objs ren o' dct data tail,
   at_off file off = obj_header k ++ unparse wm_unparse_string wm_unparse_name objs ren o'
                     ++ s_stream_kw ++ data ++ s_endstream_kw ++ s_endobj ++ tail ->
   wf_wobj o' -> (forall id, 0 < ren id) -> (forall z, o' <> OInt z) ->
   (length (unparse wm_unparse_string wm_unparse_name objs ren o') < fuel)%nat ->
   to_pobj objs ren o' = SpDict dct ->
   dict_get dct n_Length = Some (SpInt (Z.of_N (N.of_nat (length data)))) ->
-  parse_indirect fuel total file off (fun _ => None)
+  parse_indirect fuel total file off len_of
   = inl (Some {| so_num := k; so_gen := 0; so_where := XInUse off 0;
                  so_val := SpDict dct;
                  so_stream := Some (offset_of total (data ++ s_endstream_kw ++ s_endobj ++ tail), N.of_nat (length data));
                  so_end := offset_of total tail |}).
 Proof.
-  intros fuel total file off k objs ren o' dct data tail Hat Hwf Hren Hni Hfuel Hv Hlen.
+  intros fuel total file off len_of k objs ren o' dct data tail Hat Hwf Hren Hni Hfuel Hv Hlen.
   set (U := unparse wm_unparse_string wm_unparse_name objs ren o') in *.
   set (D := data ++ s_endstream_kw ++ s_endobj ++ tail).
   set (E := 10 :: 115 :: 116 :: 114 :: 101 :: 97 :: 109 :: 10 :: D).
@@ -466,7 +466,7 @@ Proof.
          (SpDict (pdict objs ren' (d' ++ [len_entry len]))).
   split; [rewrite body_offsets_eq; exact Hoff|].
   split; [|split].
-  - apply (parse_indirect_emitted_stream fuel (N.of_nat (length out)) out off (doc_ren d id) objs ren' o0).
+  - apply (parse_indirect_emitted_stream fuel (N.of_nat (length out)) out off (fun _ => None) (doc_ren d id) objs ren' o0).
     + unfold at_off. rewrite Hskip. unfold Hd, D. rewrite <- !app_assoc. reflexivity.
     + exact Hwf0.
     + intros x. unfold ren'. destruct (doc_ren d x =? 0) eqn:E; [lia | apply N.eqb_neq in E; lia].
@@ -522,6 +522,329 @@ Proof.
   rewrite app_nil_r in H. exact H.
 Qed.
 
+
+(* ---------- the complete layout of the model's output ---------- *)
+Notation WUS := wm_unparse_string.
+Notation WUN := wm_unparse_name.
+
+Definition w_ids (d : doc) : list N := written (graph_of d) (roots_of d).
+Definition w_hdr (d : doc) : list N := header (d_version d).
+Definition w_chunk (d : doc) (id : N) : list N := chunk_of WUS WUN (d_objects d) (doc_ren d) id.
+Definition w_bodies (d : doc) : list N := concat (map (w_chunk d) (w_ids d)).
+Definition w_offs (d : doc) : list (N * N) :=
+  offs_of WUS WUN (d_objects d) (doc_ren d) (w_ids d) (N.of_nat (length (w_hdr d))).
+Definition w_n (d : doc) : N := N.of_nat (length (w_ids d)).
+Definition w_xoff (d : doc) : N := N.of_nat (length (w_hdr d)) + N.of_nat (length (w_bodies d)).
+Definition s_free : list N := [48;48;48;48;48;48;48;48;48;48; 32; 54;53;53;51;53; 32; 102; 32; 10].
+Definition w_lines (d : doc) : list N := flat_map (fun ko : N * N => xref_line (snd ko)) (w_offs d).
+Definition w_xref (d : doc) : list N :=
+  [120; 114; 101; 102; 10; 48; 32] ++ dec_of_N (w_n d + 1) ++ [10] ++ s_free ++ w_lines d.
+Definition w_tg (d : doc) (kv : list N * obj) : list N :=
+  if is_null_val (d_objects d) (snd kv) then [] else
+  sp ++ WUN (fst kv) ++ sp ++
+  (if beqb (fst kv) k_Size then dec_of_N (w_n d + 1) else unparse WUS WUN (d_objects d) (doc_ren d) (snd kv)).
+Definition w_trailer (d : doc) : list N :=
+  [116; 114; 97; 105; 108; 101; 114; 32; 60; 60] ++ flat_map (w_tg d) (d_trailer d)
+  ++ [32; 47; 73; 68; 32; 91] ++ hexstr (d_id1 d) ++ hexstr (d_id2 d) ++ [93] ++ [32; 62; 62; 10].
+Definition w_tail (d : doc) : list N :=
+  [115; 116; 97; 114; 116; 120; 114; 101; 102; 10] ++ dec_of_N (w_xoff d) ++ [10; 37; 37; 69; 79; 70; 10].
+
+Lemma write_doc_layout_lemma : forall d,
+  write_doc WUS WUN d = w_hdr d ++ w_bodies d ++ w_xref d ++ w_trailer d ++ w_tail d.
+Proof.
+  intros d. unfold write_doc. rewrite emit_bodies_eq. rewrite !rev'_rev.
+  rewrite !app_nil_r, !rev_involutive. reflexivity.
+Qed.
+
+Lemma w_offs_eq : forall d, body_offsets WUS WUN d = w_offs d.
+Proof. intros d. apply body_offsets_eq. Qed.
+
+(* ---------- find_last ---------- *)
+Lemma expect_app : forall pat post, expect pat (pat ++ post) = Some post.
+Proof.
+  induction pat as [|p pt IH]; intros post; [destruct post; reflexivity|].
+  cbn [app expect]. rewrite N.eqb_refl. apply IH.
+Qed.
+
+Lemma find_last_absent : forall p pt s pos best, ~ In p s -> find_last (p :: pt) s pos best = best.
+Proof.
+  induction s as [|c t IH]; intros pos best Hn; [reflexivity|].
+  cbn [find_last expect].
+  assert (E : (p =? c) = false) by (apply N.eqb_neq; intros ->; apply Hn; left; reflexivity).
+  rewrite E. apply IH. intros H. apply Hn. right. exact H.
+Qed.
+
+Lemma find_last_skip : forall pat pre s pos best, exists best',
+  find_last pat (pre ++ s) pos best = find_last pat s (pos + N.of_nat (length pre)) best'.
+Proof.
+  induction pre as [|c t IH]; intros s pos best.
+  - exists best. cbn [app length]. rewrite N.add_0_r. reflexivity.
+  - cbn [app find_last].
+    destruct (IH s (pos + 1) (match expect pat (c :: t ++ s) with Some _ => Some pos | None => best end)) as [b' Hb].
+    exists b'. rewrite Hb. f_equal. cbn [length]. lia.
+Qed.
+
+Lemma find_last_unique : forall p pt pre post, ~ In p (pt ++ post) ->
+  find_last (p :: pt) (pre ++ (p :: pt) ++ post) 0 None = Some (N.of_nat (length pre)).
+Proof.
+  intros p pt pre post Hn.
+  destruct (find_last_skip (p :: pt) pre ((p :: pt) ++ post) 0 None) as [b' Hb]. rewrite Hb.
+  change ((p :: pt) ++ post) with (p :: pt ++ post) at 1.
+  cbn [find_last]. change (p :: pt ++ post) with ((p :: pt) ++ post). rewrite expect_app.
+  rewrite find_last_absent by exact Hn. reflexivity.
+Qed.
+
+Lemma digits_not_in : forall c w, all_digits w = true -> is_digit c = false -> ~ In c w.
+Proof.
+  induction w as [|x w IH]; intros Hd Hc Hin; [destruct Hin|].
+  cbn [all_digits] in Hd. apply andb_true_iff in Hd. destruct Hd as [Hx Hw].
+  destruct Hin as [->|Hin]; [congruence | exact (IH Hw Hc Hin)].
+Qed.
+
+Lemma find_last_startxref : forall pre v,
+  find_last k_startxref (pre ++ k_startxref ++ 10 :: dec_of_N v ++ [10; 37; 37; 69; 79; 70; 10]) 0 None
+  = Some (N.of_nat (length pre)).
+Proof.
+  intros pre v. unfold k_startxref. apply find_last_unique.
+  destruct (dec_of_N_value_lemma v) as [_ [Hd _]].
+  cbn [app]. intros H.
+  repeat (destruct H as [H|H]; [discriminate H|]).
+  apply in_app_or in H. destruct H as [H|H].
+  - exact (digits_not_in 115 _ Hd eq_refl H).
+  - repeat (destruct H as [H|H]; [discriminate H|]). exact H.
+Qed.
+
+(* ---------- the tail: startxref <n> %%EOF ---------- *)
+Lemma parse_tail_model : forall v,
+  parse_tail (k_startxref ++ 10 :: dec_of_N v ++ [10; 37; 37; 69; 79; 70; 10]) = Some (v, []).
+Proof.
+  intros v. unfold parse_tail.
+  assert (H1 : next_tok (k_startxref ++ 10 :: dec_of_N v ++ [10; 37; 37; 69; 79; 70; 10])
+               = Some (StKw k_startxref, 10 :: dec_of_N v ++ [10; 37; 37; 69; 79; 70; 10])).
+  { unfold k_startxref. apply next_tok_kw; try reflexivity. left. reflexivity. }
+  rewrite H1. change (negb (beq k_startxref k_startxref)) with false. cbv iota.
+  change (next_tok (10 :: dec_of_N v ++ [10; 37; 37; 69; 79; 70; 10]))
+    with (next_tok (dec_of_N v ++ [10; 37; 37; 69; 79; 70; 10])).
+  rewrite next_tok_dec_of_N by (left; reflexivity).
+  cbn [eol expect k_eof]. rewrite N2Z.id. reflexivity.
+Qed.
+
+(* ---------- hexadecimal strings of the /ID pair ---------- *)
+Lemma hexstr_eq : forall s, hexstr s = 60 :: flat_map (fun b => [wm_hexd (b / 16); wm_hexd (b mod 16)]) s ++ [62].
+Proof. reflexivity. Qed.
+
+Lemma next_tok_hexstr : forall s rest, Forall (fun b => b < 256) s ->
+  next_tok (hexstr s ++ rest) = Some (StStr s, rest).
+Proof.
+  intros s rest Hb. rewrite hexstr_eq. destruct s as [|b s].
+  - reflexivity.
+  - pose proof (hex_chars_read (b :: s) rest [] Hb) as H.
+    inversion Hb as [|? ? Hb1 Hb2]; subst.
+    assert (H1 : b / 16 < 16) by (apply N.div_lt_upper_bound; lia).
+    destruct (hexd_facts _ H1) as [HA _].
+    cbn [flat_map app] in *. rewrite <- app_assoc. cbn [app]. rewrite HA, H.
+    rewrite app_nil_r, rev'_rev. change (rev s ++ [b]) with (rev (b :: s)). rewrite rev_involutive. reflexivity.
+Qed.
+
+Lemma parse_obj_hexstr : forall f s rest, Forall (fun b => b < 256) s ->
+  parse_obj (S f) (hexstr s ++ rest) = Some (SpStr s, rest).
+Proof. intros f s rest Hb. rewrite parse_obj_S, next_tok_hexstr by exact Hb. reflexivity. Qed.
+
+Lemma parse_obj_id_array : forall f a b rest, Forall (fun x => x < 256) a -> Forall (fun x => x < 256) b ->
+  parse_obj (S (S (S (S f)))) (32 :: 91 :: hexstr a ++ hexstr b ++ 93 :: rest) = Some (SpArr [SpStr a; SpStr b], rest).
+Proof.
+  intros f a b rest Ha Hb. rewrite parse_obj_sp, parse_obj_S.
+  change (next_tok (91 :: hexstr a ++ hexstr b ++ 93 :: rest)) with (Some (StArrO, hexstr a ++ hexstr b ++ 93 :: rest)).
+  cbv iota.
+  rewrite (arr_loop_step _ _ _ _ (SpStr a) (hexstr b ++ 93 :: rest)).
+  - rewrite (arr_loop_step _ _ _ _ (SpStr b) (93 :: rest)).
+    + reflexivity.
+    + apply parse_obj_hexstr. exact Hb.
+    + intros r. rewrite next_tok_hexstr by exact Hb. discriminate.
+  - apply parse_obj_hexstr. exact Ha.
+  - intros r. rewrite next_tok_hexstr by exact Ha. discriminate.
+Qed.
+
+(* ---------- dictionary entries followed by something else than ">>" (the trailer has /ID appended) ---------- *)
+Section Entries.
+  Variable objs : list (N * indirect).
+  Variable ren : N -> N.
+  Hypothesis ren_pos : forall id, 0 < ren id.
+  Local Notation G := (gd WUS WUN objs ren).
+  Local Notation U := (unparse WUS WUN objs ren).
+
+  Lemma G_null : forall kv t X, is_null_val objs (snd kv) = true -> flat_map G (kv :: t) ++ X = flat_map G t ++ X.
+  Proof. intros kv t X H. rewrite gd_null_len by exact H. reflexivity. Qed.
+  Lemma G_nonnull : forall kv t X, is_null_val objs (snd kv) = false ->
+    flat_map G (kv :: t) ++ X = 32 :: WUN (fst kv) ++ 32 :: U (snd kv) ++ flat_map G t ++ X.
+  Proof.
+    intros kv t X H. cbn [flat_map]. unfold gd at 1. rewrite H.
+    cbn [sp app]. rewrite <- !app_assoc. reflexivity.
+  Qed.
+
+  Lemma entries_ends_ok : forall d X, ends_ok X -> ends_ok (flat_map G d ++ X).
+  Proof.
+    induction d as [|kv t IH]; intros X HX; [exact HX|].
+    destruct (is_null_val objs (snd kv)) eqn:E.
+    - rewrite G_null by exact E. apply IH. exact HX.
+    - rewrite G_nonnull by exact E. left. reflexivity.
+  Qed.
+
+  Lemma entries_nrf : forall d X, Forall wf_entry d -> no_ref_follow X -> no_ref_follow (flat_map G d ++ X).
+  Proof.
+    induction d as [|kv t IH]; intros X Hwf HX; [exact HX|].
+    inversion Hwf as [|? ? [[H1 H2] H3] H4]; subst.
+    destruct (is_null_val objs (snd kv)) eqn:E.
+    - rewrite G_null by exact E. apply IH; assumption.
+    - rewrite G_nonnull by exact E. unfold no_ref_follow.
+      change (next_tok (32 :: WUN (fst kv) ++ 32 :: U (snd kv) ++ flat_map G t ++ X))
+        with (next_tok (WUN (fst kv) ++ 32 :: U (snd kv) ++ flat_map G t ++ X)).
+      rewrite wm_name_read_lemma; [exact I | exact H1 | exact H2 | left; reflexivity].
+  Qed.
+
+  Lemma dict_entries_ok : forall f X d k acc, Forall wf_entry d -> ends_ok X -> no_ref_follow X ->
+    (length (flat_map G d) <= f)%nat ->
+    exists k', (k <= k')%nat /\
+      dict_loop (parse_obj f) (length (flat_map G d) + k) (flat_map G d ++ X) acc
+      = dict_loop (parse_obj f) k' X (rev (pdict objs ren d) ++ acc).
+  Proof.
+    intros f X. induction d as [|kv t IH]; intros k acc Hwf HX HnX Hf.
+    - exists k. split; [lia|]. reflexivity.
+    - inversion Hwf as [|? ? [[H1 H2] H3] H4]; subst.
+      destruct (is_null_val objs (snd kv)) eqn:E.
+      + rewrite G_null by exact E. rewrite gd_null_len in * by exact E.
+        cbn [pdict]. rewrite E. apply IH; assumption.
+      + rewrite G_nonnull by exact E. rewrite gd_nonnull_len in * by exact E.
+        destruct (IH (1 + length (WUN (fst kv)) + length (U (snd kv)) + k)%nat
+                     ((fst kv, to_pobj objs ren (snd kv)) :: acc) H4 HX HnX) as [k' [Hk' Heq]]; [lia|].
+        exists k'. split; [lia|].
+        replace (2 + length (WUN (fst kv)) + length (U (snd kv)) + length (flat_map G t) + k)%nat
+          with (S (length (flat_map G t) + (1 + length (WUN (fst kv)) + length (U (snd kv)) + k)))%nat by lia.
+        cbn [dict_loop].
+        change (next_tok (32 :: WUN (fst kv) ++ 32 :: U (snd kv) ++ flat_map G t ++ X))
+          with (next_tok (WUN (fst kv) ++ 32 :: U (snd kv) ++ flat_map G t ++ X)).
+        rewrite wm_name_read_lemma; [| exact H1 | exact H2 | left; reflexivity].
+        rewrite parse_obj_sp, unparse_parses_wm_lemma.
+        * rewrite Heq. cbn [pdict]. rewrite E. cbn [rev]. rewrite <- app_assoc. reflexivity.
+        * exact H3.
+        * exact ren_pos.
+        * apply entries_ends_ok. exact HX.
+        * intros z _. apply entries_nrf; assumption.
+        * lia.
+  Qed.
+
+  (* the trailer dictionary: entries, then /ID [<..><..>], then >> *)
+  Lemma trailer_dict_parses : forall f d a b R, Forall wf_entry d ->
+    Forall (fun x => x < 256) a -> Forall (fun x => x < 256) b ->
+    (length (flat_map G d) + 4 <= f)%nat ->
+    parse_obj (S f) (32 :: 60 :: 60 :: flat_map G d
+                     ++ [32; 47; 73; 68; 32; 91] ++ hexstr a ++ hexstr b ++ [93] ++ [32; 62; 62; 10] ++ R)
+    = Some (SpDict (pdict objs ren d ++ [([73; 68], SpArr [SpStr a; SpStr b])]), 10 :: R).
+  Proof.
+    intros f d a b R Hwf Ha Hb Hf.
+    set (X := 32 :: 47 :: 73 :: 68 :: 32 :: 91 :: hexstr a ++ hexstr b ++ 93 :: 32 :: 62 :: 62 :: 10 :: R).
+    replace ([32; 47; 73; 68; 32; 91] ++ hexstr a ++ hexstr b ++ [93] ++ [32; 62; 62; 10] ++ R) with X
+      by (unfold X; reflexivity).
+    rewrite parse_obj_sp, parse_obj_S.
+    change (next_tok (60 :: 60 :: flat_map G d ++ X)) with (Some (StDictO, flat_map G d ++ X)). cbv iota.
+    assert (HntX : next_tok X = Some (StName [73; 68], 32 :: 91 :: hexstr a ++ hexstr b ++ 93 :: 32 :: 62 :: 62 :: 10 :: R))
+      by reflexivity.
+    destruct (dict_entries_ok f X d (f - length (flat_map G d)) [] Hwf) as [k' [Hk' Heq]].
+    - left. reflexivity.
+    - unfold no_ref_follow. rewrite HntX. exact I.
+    - lia.
+    - replace (length (flat_map G d) + (f - length (flat_map G d)))%nat with f in Heq by lia.
+      rewrite Heq. destruct k' as [|[|k']]; [lia|lia|].
+      destruct f as [|[|[|[|f]]]]; try lia.
+      cbn [dict_loop]. rewrite HntX.
+      rewrite parse_obj_id_array by assumption.
+      change (next_tok (32 :: 62 :: 62 :: 10 :: R)) with (Some (StDictC, 10 :: R)). cbv iota.
+      rewrite app_nil_r, rev'_rev. cbn [rev]. rewrite rev_involutive. reflexivity.
+  Qed.
+End Entries.
+
+(* ---------- the cross-reference section ---------- *)
+Lemma xref_entry_free : forall r, xref_entry (s_free ++ r) = Some (XFree 0 65535, r).
+Proof. reflexivity. Qed.
+Lemma next_tok_0sp : forall X, next_tok (48 :: 32 :: X) = Some (StInt 0, 32 :: X).
+Proof. reflexivity. Qed.
+Lemma next_tok_trailer_kw : forall X,
+  next_tok ([116; 114; 97; 105; 108; 101; 114] ++ 32 :: X) = Some (StKw k_trailer, 32 :: X).
+Proof. reflexivity. Qed.
+
+Definition model_entries (offs : list (N * N)) : list (N * xentry) :=
+  rev (map (fun p : N * (N * N) => (fst p, XInUse (snd (snd p)) 0))
+           (combine (map N.of_nat (seq 1 (length offs))) offs)) ++ [(0, XFree 0 65535)].
+
+Lemma xref_subsections_model : forall f (offs : list (N * N)) X,
+  Forall (fun ko => snd ko < 10 ^ 10) offs ->
+  xref_subsections (S (S f))
+    (48 :: 32 :: dec_of_N (N.of_nat (length offs) + 1) ++ [10] ++ s_free
+     ++ flat_map (fun ko => xref_line (snd ko)) offs ++ [116; 114; 97; 105; 108; 101; 114] ++ 32 :: X) []
+  = Some (model_entries offs, 32 :: X).
+Proof.
+  intros f offs X Hb.
+  set (m := N.of_nat (length offs) + 1).
+  set (Y := s_free ++ flat_map (fun ko => xref_line (snd ko)) offs ++ [116; 114; 97; 105; 108; 101; 114] ++ 32 :: X).
+  change (xref_subsections (S (S f)) (48 :: 32 :: dec_of_N m ++ [10] ++ Y) [])
+    with (match next_tok (48 :: 32 :: dec_of_N m ++ 10 :: Y) with
+          | Some (StKw w, r) => if beq w k_trailer then Some ([], r) else None
+          | Some (StInt start, r1) =>
+              match next_tok r1 with
+              | Some (StInt cnt, r2) =>
+                  match eol (match r2 with 32 :: t => t | _ => r2 end) with
+                  | Some r3 =>
+                      if (start <? 0)%Z || (cnt <? 0)%Z then None else
+                      match xref_entries (Z.to_nat cnt) (Z.to_N start) r3 [] with
+                      | Some (acc', r4) => xref_subsections (S f) r4 acc'
+                      | None => None
+                      end
+                  | None => None
+                  end
+              | _ => None
+              end
+          | _ => None
+          end).
+  rewrite next_tok_0sp.
+  change (next_tok (32 :: dec_of_N m ++ 10 :: Y)) with (next_tok (dec_of_N m ++ 10 :: Y)).
+  rewrite next_tok_dec_of_N by (left; reflexivity).
+  cbv iota. change (eol (10 :: Y)) with (Some Y). cbv iota.
+  replace ((0 <? 0)%Z || (Z.of_N m <? 0)%Z) with false
+    by (symmetry; apply orb_false_iff; split; apply Z.ltb_ge; lia).
+  replace (Z.to_nat (Z.of_N m)) with (S (length offs)) by (unfold m; lia).
+  change (Z.to_N 0) with 0. unfold Y.
+  cbn [xref_entries]. rewrite xref_entry_free.
+  change (0 + 1) with (N.of_nat 1).
+  rewrite (model_xref_entries_gen offs 1 [(0, XFree 0 65535)] _ Hb).
+  cbn [xref_subsections]. rewrite next_tok_trailer_kw.
+  change (beq k_trailer k_trailer) with true. reflexivity.
+Qed.
+
+Definition k_XRefStm : list N := [88; 82; 101; 102; 83; 116; 109].
+
+Lemma read_section_model_lemma : forall f total sx file xoff (offs : list (N * N)) X dct R,
+  Forall (fun ko => snd ko < 10 ^ 10) offs ->
+  at_off file xoff = [120; 114; 101; 102; 10; 48; 32] ++ dec_of_N (N.of_nat (length offs) + 1) ++ [10] ++ s_free
+                     ++ flat_map (fun ko => xref_line (snd ko)) offs ++ [116; 114; 97; 105; 108; 101; 114] ++ 32 :: X ->
+  parse_obj (S (S f)) (32 :: X) = Some (SpDict dct, 10 :: k_startxref ++ R) ->
+  has_dup_keys dct = false -> dict_get dct k_XRefStm = None ->
+  offset_of total (k_startxref ++ R) = sx ->
+  read_section (S (S f)) total sx file xoff
+  = inl {| sec_entries := model_entries offs; sec_dict := dct; sec_is_stream := false;
+           sec_region := (xoff, offset_of total (10 :: k_startxref ++ R)); sec_tail_value := 0; sec_obj := None |}.
+Proof.
+  intros f total sx file xoff offs X dct R Hb Hat Hp Hdup Hxs Hsx.
+  unfold read_section. cbv zeta. rewrite Hat.
+  set (Z0 := dec_of_N (N.of_nat (length offs) + 1) ++ [10] ++ s_free
+             ++ flat_map (fun ko => xref_line (snd ko)) offs ++ [116; 114; 97; 105; 108; 101; 114] ++ 32 :: X).
+  change (expect k_xref ([120; 114; 101; 102; 10; 48; 32] ++ Z0)) with (Some (10 :: 48 :: 32 :: Z0)).
+  cbv iota. change (eol (10 :: 48 :: 32 :: Z0)) with (Some (48 :: 32 :: Z0)). cbv iota.
+  unfold Z0. rewrite (xref_subsections_model f offs X Hb). rewrite Hp, Hdup.
+  unfold opt_tail. cbv zeta.
+  change (skip_ws (10 :: k_startxref ++ R)) with (k_startxref ++ R).
+  rewrite Hsx, N.eqb_refl. fold k_XRefStm. rewrite Hxs. reflexivity.
+Qed.
+
 (* ------------------------------------------------------------------------------------------------
    Capstone: the strict reader (written from ISO 32000-1 only) accepts the WHOLE output of the plain
    writer model and reads back exactly the document that was written: every written object under its
@@ -558,6 +881,325 @@ Definition expected_trailer (d : doc) : list (list N * pobj) :=
                                      else to_pobj (d_objects d) (doc_ren d) (snd kv))]) (d_trailer d)
   ++ [([73; 68], SpArr [SpStr (d_id1 d); SpStr (d_id2 d)])].
 
+
+(* ---------- one written object, read at the place where its chunk starts ---------- *)
+Lemma written_find_obj : forall d id, doc_closed d -> In id (w_ids d) -> exists i, find_obj (d_objects d) id = Some i.
+Proof.
+  intros d id Hc Hin. destruct (queue_complete_lemma _ _ Hc) as [_ Hq].
+  apply Hq in Hin. apply (reach_in_g _ _ _ Hc) in Hin.
+  unfold graph_of in Hin. rewrite map_map in Hin. cbn [fst] in Hin.
+  induction (d_objects d) as [|[k v] t IH]; [destruct Hin|].
+  cbn [map fst] in Hin. cbn [find_obj]. destruct (k =? id) eqn:E; [eexists; reflexivity|].
+  destruct Hin as [Hk|Hin]; [subst k; rewrite N.eqb_refl in E; discriminate E | exact (IH Hin)].
+Qed.
+
+Definition patched_ren (d : doc) (x : N) : N := if doc_ren d x =? 0 then 1 else doc_ren d x.
+Lemma patched_ren_pos : forall d x, 0 < patched_ren d x.
+Proof. intros d x. unfold patched_ren. destruct (doc_ren d x =? 0) eqn:E; [lia | apply N.eqb_neq in E; lia]. Qed.
+Lemma patched_ren_eq : forall d x, 0 < doc_ren d x -> doc_ren d x = patched_ren d x.
+Proof. intros d x H. unfold patched_ren. destruct (doc_ren d x =? 0) eqn:E; [apply N.eqb_eq in E; lia | reflexivity]. Qed.
+
+Definition obj_read (d : doc) (fuel : nat) (id off : N) (so : sobj) : Prop :=
+  (forall len_of, parse_indirect fuel (N.of_nat (length (wm_out d))) (wm_out d) off len_of = inl (Some so)) /\
+  so_num so = doc_ren d id /\ so_gen so = 0 /\ so_where so = XInUse off 0 /\
+  so_end so = off + N.of_nat (length (w_chunk d id)) /\
+  (forall i, find_obj (d_objects d) id = Some i ->
+             sobj_view (wm_out d) so = (doc_ren d id, 0, expected_val d i, i_stream i)).
+
+Lemma one_object_read : forall d fuel id off tail,
+  doc_closed d -> wf_doc_objs d ->
+  (forall k i, In (k, i) (d_objects d) -> i_stream i <> None -> exists dd, i_val i = ODict dd) ->
+  In id (w_ids d) ->
+  skipn (N.to_nat off) (wm_out d) = w_chunk d id ++ tail ->
+  (length (wm_out d) <= fuel)%nat ->
+  exists so, obj_read d fuel id off so.
+Proof.
+  intros d fuel id off tail Hc Hwf Hstreams Hin Hskip Hfuel.
+  destruct (written_find_obj d id Hc Hin) as [i Hf].
+  set (out := wm_out d) in *. set (objs := d_objects d) in *. set (ren' := patched_ren d).
+  assert (Hwfi : wf_wobj (i_val i)).
+  { destruct (find_obj_in _ _ _ Hf) as [k Hk]. unfold wf_doc_objs in Hwf.
+    rewrite Forall_forall in Hwf. apply (Hwf (k, i) Hk). }
+  assert (Hlen : (length out - N.to_nat off = length (w_chunk d id) + length tail)%nat).
+  { rewrite <- skipn_length, Hskip, app_length. reflexivity. }
+  assert (Hpos : (0 < length (w_chunk d id))%nat) by apply chunk_of_length_pos.
+  destruct (i_stream i) as [data|] eqn:Hs.
+  - (* stream *)
+    destruct (find_obj_in _ _ _ Hf) as [k0 Hk0].
+    destruct (Hstreams k0 i Hk0) as [dd Hdd]; [rewrite Hs; discriminate|].
+    set (len := N.of_nat (length data)).
+    set (d' := filter (fun kv : list N * obj => negb (beqb (fst kv) k_Length)) dd).
+    set (o0 := ODict (d' ++ [len_entry len])).
+    assert (Hext : forall x, In x (refs_of objs o0) -> doc_ren d x = ren' x).
+    { intros x Hx. apply patched_ren_eq. unfold o0 in Hx. rewrite refs_of_dict_app in Hx. apply in_app_or in Hx.
+      destruct Hx as [Hx|Hx]; [|destruct Hx].
+      apply written_ren_pos; [exact Hc|].
+      destruct (queue_complete_lemma _ _ Hc) as [_ Hq]. apply Hq.
+      apply (reach_step _ _ id); [apply Hq; exact Hin|].
+      rewrite (children_graph_of_stream d id i data Hf Hs), Hdd. exact Hx. }
+    destruct (ren_ext WUS WUN objs (doc_ren d) ren' o0 Hext) as [HU HP].
+    set (Hd := obj_header (doc_ren d id) ++ unparse WUS WUN objs ren' o0 ++ s_stream_kw).
+    set (D := data ++ s_endstream_kw ++ s_endobj ++ tail).
+    assert (Hchunk : w_chunk d id ++ tail = Hd ++ D).
+    { unfold w_chunk, chunk_of. fold objs. rewrite Hf. unfold emit_object. rewrite Hs, Hdd, unparse_stream_dict_eq.
+      fold len d' o0. rewrite HU. unfold Hd, D, s_stream_kw, s_endstream_kw. rewrite <- !app_assoc. reflexivity. }
+    assert (Hclen : length (w_chunk d id) = (length Hd + length data + 17)%nat).
+    { apply (f_equal (@length N)) in Hchunk. unfold D in Hchunk. rewrite !app_length in Hchunk.
+      unfold s_endstream_kw, s_endobj in Hchunk. cbn [length] in Hchunk. lia. }
+    rewrite Hchunk in Hskip.
+    assert (HlenHd : (0 < length Hd)%nat).
+    { unfold Hd, obj_header. rewrite !app_length. cbn [length]. lia. }
+    assert (HlenD : length D = (length data + 17 + length tail)%nat).
+    { unfold D. rewrite !app_length. unfold s_endstream_kw, s_endobj. cbn [length]. lia. }
+    assert (Hwf0 : wf_wobj o0).
+    { apply wf_dict. apply Forall_app. split.
+      - rewrite Hdd in Hwfi. apply wf_dict in Hwfi. rewrite Forall_forall in *.
+        intros kv Hkv. apply Hwfi. unfold d' in Hkv. apply filter_In in Hkv. tauto.
+      - constructor; [|constructor]. split; [|exact I]. split.
+        + cbn. intros H. repeat (destruct H as [H|H]; [discriminate H|]). exact H.
+        + repeat constructor. }
+    eexists. unfold obj_read. split; [|split; [|split; [|split; [|split]]]].
+    + intros len_of. apply (parse_indirect_emitted_stream fuel (N.of_nat (length out)) out off len_of (doc_ren d id) objs ren' o0
+               (pdict objs ren' (d' ++ [len_entry len])) data tail).
+      * unfold at_off. rewrite Hskip. unfold Hd, D. rewrite <- !app_assoc. reflexivity.
+      * exact Hwf0.
+      * apply patched_ren_pos.
+      * intros z Hz. discriminate Hz.
+      * unfold Hd in Hclen. rewrite !app_length in Hclen. lia.
+      * reflexivity.
+      * apply dict_get_length. unfold d'. apply filter_Forall.
+    + reflexivity.
+    + reflexivity.
+    + reflexivity.
+    + cbn [so_end]. unfold offset_of. lia.
+    + intros i' Hi'. assert (i' = i) by (pose proof Hf as Hf2; unfold objs in Hf2; congruence). subst i'.
+      unfold sobj_view. cbn [so_num so_gen so_val so_stream]. fold out.
+      assert (Hdoff : N.to_nat (offset_of (N.of_nat (length out)) (data ++ s_endstream_kw ++ s_endobj ++ tail))
+                      = (N.to_nat off + length Hd)%nat).
+      { fold D. unfold offset_of. lia. }
+      rewrite Hdoff, skipn_add, Hskip, skipn_app, skipn_all, Nat.sub_diag. cbn [skipn app].
+      unfold D. rewrite Nat2N.id, firstn_app, firstn_all, Nat.sub_diag. cbn [firstn]. rewrite app_nil_r.
+      rewrite Hs. f_equal. f_equal.
+      unfold expected_val. rewrite Hs, Hdd. cbn [drop_length]. fold d'. fold objs.
+      change (to_pobj objs (doc_ren d) (ODict d')) with (SpDict (pdict objs (doc_ren d) d')).
+      cbv iota.
+      assert (Hpd : pdict objs ren' (d' ++ [len_entry len]) = pdict objs (doc_ren d) (d' ++ [len_entry len])).
+      { change (to_pobj objs (doc_ren d) o0) with (SpDict (pdict objs (doc_ren d) (d' ++ [len_entry len]))) in HP.
+        change (to_pobj objs ren' o0) with (SpDict (pdict objs ren' (d' ++ [len_entry len]))) in HP.
+        injection HP as HP. symmetry. exact HP. }
+      rewrite Hpd, pdict_app. unfold len_entry. cbn [pdict snd fst is_null_val to_pobj].
+      unfold len. rewrite nat_N_Z. reflexivity.
+  - (* plain object *)
+    assert (Hext : forall x, In x (refs_of objs (i_val i)) -> doc_ren d x = ren' x).
+    { intros x Hx. apply patched_ren_eq. exact (refs_ren_pos d id i x Hc Hin Hf Hs Hx). }
+    destruct (ren_ext WUS WUN objs (doc_ren d) ren' (i_val i) Hext) as [HU HP].
+    assert (Hchunk : w_chunk d id = obj_header (doc_ren d id) ++ unparse WUS WUN objs ren' (i_val i) ++ s_endobj).
+    { unfold w_chunk, chunk_of. fold objs. rewrite Hf. unfold emit_object. rewrite Hs, HU. reflexivity. }
+    eexists. unfold obj_read. split; [|split; [|split; [|split; [|split]]]].
+    + intros len_of. apply (parse_indirect_emitted fuel (N.of_nat (length out)) out off len_of (doc_ren d id) objs ren' (i_val i) tail).
+      * unfold at_off. rewrite Hskip, Hchunk, <- !app_assoc. reflexivity.
+      * exact Hwfi.
+      * apply patched_ren_pos.
+      * pose proof Hlen as Hlen2. rewrite Hchunk, !app_length in Hlen2. unfold s_endobj in Hlen2. cbn [length] in Hlen2. lia.
+    + reflexivity.
+    + reflexivity.
+    + reflexivity.
+    + cbn [so_end]. unfold offset_of. lia.
+    + intros i' Hi'. assert (i' = i) by (pose proof Hf as Hf2; unfold objs in Hf2; congruence). subst i'.
+      unfold sobj_view. cbn [so_num so_gen so_val so_stream]. rewrite Hs. f_equal. f_equal.
+      unfold expected_val. rewrite Hs. fold objs. symmetry. exact HP.
+Qed.
+
+(* ---------- all written objects, in file order ---------- *)
+Fixpoint idoffs (d : doc) (ids : list N) (pos : N) : list (N * N) :=
+  match ids with
+  | [] => []
+  | id :: t => (id, pos) :: idoffs d t (pos + N.of_nat (length (w_chunk d id)))
+  end.
+
+Lemma offs_of_idoffs : forall d ids pos,
+  offs_of WUS WUN (d_objects d) (doc_ren d) ids pos = map (fun p => (doc_ren d (fst p), snd p)) (idoffs d ids pos).
+Proof.
+  intros d. induction ids as [|id t IH]; intros pos; [reflexivity|].
+  cbn [offs_of idoffs map fst snd]. rewrite IH. reflexivity.
+Qed.
+
+Lemma idoffs_length : forall d ids pos, length (idoffs d ids pos) = length ids.
+Proof. intros d. induction ids as [|id t IH]; intros pos; [reflexivity|]. cbn [idoffs length]. rewrite IH. reflexivity. Qed.
+
+Lemma idoffs_fst : forall d ids pos, map fst (idoffs d ids pos) = ids.
+Proof. intros d. induction ids as [|id t IH]; intros pos; [reflexivity|]. cbn [idoffs map fst]. rewrite IH. reflexivity. Qed.
+
+Lemma all_objects_read : forall d fuel,
+  doc_closed d -> wf_doc_objs d ->
+  (forall k i, In (k, i) (d_objects d) -> i_stream i <> None -> exists dd, i_val i = ODict dd) ->
+  (length (wm_out d) <= fuel)%nat ->
+  forall ids pos pre rest, (forall id, In id ids -> In id (w_ids d)) ->
+  wm_out d = pre ++ concat (map (w_chunk d) ids) ++ rest -> N.to_nat pos = length pre ->
+  exists sos, Forall2 (fun p so => obj_read d fuel (fst p) (snd p) so) (idoffs d ids pos) sos.
+Proof.
+  intros d fuel Hc Hwf Hst Hfuel. induction ids as [|id t IH]; intros pos pre rest Hin Hout Hpos.
+  - exists []. constructor.
+  - destruct (one_object_read d fuel id pos (concat (map (w_chunk d) t) ++ rest) Hc Hwf Hst) as [so Hso].
+    + apply Hin. left. reflexivity.
+    + rewrite Hout, Hpos, skipn_app, skipn_all, Nat.sub_diag. cbn [app skipn map concat].
+      rewrite <- app_assoc. reflexivity.
+    + exact Hfuel.
+    + destruct (IH (pos + N.of_nat (length (w_chunk d id))) (pre ++ w_chunk d id) rest) as [sos Hsos].
+      * intros x Hx. apply Hin. right. exact Hx.
+      * rewrite Hout. cbn [map concat]. rewrite <- !app_assoc. reflexivity.
+      * rewrite app_length. lia.
+      * exists (so :: sos). cbn [idoffs]. constructor; [exact Hso | exact Hsos].
+Qed.
+
+(* ---------- generic folds of the reader ---------- *)
+Lemma fold_collect : forall (A B E : Type) (F : list B + E -> A -> list B + E) l sos acc,
+  Forall2 (fun ke so => forall objs, F (inl objs) ke = inl (so :: objs)) l sos ->
+  fold_left F l (inl acc) = inl (rev sos ++ acc).
+Proof.
+  intros A B E F. induction l as [|ke t IH]; intros sos acc H; inversion H as [|? so ? sos' H1 H2]; subst.
+  - reflexivity.
+  - cbn [fold_left]. rewrite H1, (IH sos' (so :: acc) H2). cbn [rev]. rewrite <- app_assoc. reflexivity.
+Qed.
+
+Lemma fold_skip : forall (A B E : Type) (F : list B + E -> A -> list B + E) l acc,
+  Forall (fun ke => forall objs, F (inl objs) ke = inl objs) l ->
+  fold_left F l (inl acc) = inl acc.
+Proof.
+  intros A B E F. induction l as [|ke t IH]; intros acc H; [reflexivity|].
+  inversion H as [|? ? H1 H2]; subst. cbn [fold_left]. rewrite H1. apply IH. exact H2.
+Qed.
+
+Lemma flat_map_nil : forall (A B : Type) (G : A -> list B) l, Forall (fun x => G x = []) l -> flat_map G l = [].
+Proof.
+  intros A B G. induction l as [|x t IH]; intros H; [reflexivity|].
+  inversion H as [|? ? H1 H2]; subst. cbn [flat_map]. rewrite H1, (IH H2). reflexivity.
+Qed.
+
+Lemma filter_all : forall (A : Type) (f : A -> bool) l, (forall x, f x = true) -> filter f l = l.
+Proof.
+  intros A f. induction l as [|x t IH]; intros H; [reflexivity|]. cbn [filter]. rewrite H, (IH H). reflexivity.
+Qed.
+
+(* ---------- the merged cross-reference table ---------- *)
+Lemma lookup_x_none : forall k l, ~ In k (map fst l) -> lookup_x k l = None.
+Proof.
+  intros k. induction l as [|[k' e] t IH]; intros H; [reflexivity|].
+  cbn [lookup_x]. destruct (k' =? k) eqn:E.
+  - apply N.eqb_eq in E. exfalso. apply H. left. exact E.
+  - apply IH. intros Hin. apply H. right. exact Hin.
+Qed.
+
+Lemma lookup_x_in : forall k e l, NoDup (map fst l) -> In (k, e) l -> lookup_x k l = Some e.
+Proof.
+  intros k e. induction l as [|[k' e'] t IH]; intros Hnd Hin; [destruct Hin|].
+  cbn [map fst] in Hnd. inversion Hnd as [|? ? Hn1 Hn2]; subst.
+  cbn [lookup_x]. destruct Hin as [Heq|Hin].
+  - inversion Heq; subst. rewrite N.eqb_refl. reflexivity.
+  - destruct (k' =? k) eqn:E.
+    + apply N.eqb_eq in E. subst k'. exfalso. apply Hn1. apply in_map_iff. exists (k, e). split; [reflexivity|exact Hin].
+    + apply IH; assumption.
+Qed.
+
+Lemma merge_x_rev : forall older newer, NoDup (map fst older ++ map fst newer) ->
+  merge_x newer older = rev older ++ newer.
+Proof.
+  induction older as [|[k e] t IH]; intros newer Hnd; [reflexivity|].
+  cbn [merge_x]. cbn [map fst app] in Hnd. inversion Hnd as [|? ? Hn1 Hn2]; subst.
+  rewrite lookup_x_none.
+  - rewrite IH.
+    + cbn [rev]. rewrite <- app_assoc. reflexivity.
+    + cbn [map fst]. apply (NoDup_Add (Add_app k (map fst t) (map fst newer))). split; assumption.
+  - intros Hin. apply Hn1. apply in_or_app. right. exact Hin.
+Qed.
+
+Fixpoint fold_max (l : list N) (m : N) : N := match l with [] => m | k :: t => fold_max t (N.max k m) end.
+Lemma max_num_fold : forall l m, max_num l m = fold_max (map fst l) m.
+Proof. induction l as [|[k e] t IH]; intros m; [reflexivity|]. cbn [max_num map fst fold_max]. apply IH. Qed.
+Lemma fold_max_seq : forall len a m, fold_max (map N.of_nat (seq a len)) m = N.max m (N.of_nat (a + len) - 1) \/ len = 0%nat.
+Proof.
+  induction len as [|len IH]; intros a m; [right; reflexivity|]. left.
+  cbn [seq map fold_max]. destruct (IH (S a) (N.max (N.of_nat a) m)) as [H|H].
+  - rewrite H. lia.
+  - subst len. cbn [seq map fold_max]. lia.
+Qed.
+
+(* ---------- regions ---------- *)
+Lemma gap_ok_refl : forall file a, gap_ok file a a = true.
+Proof. intros file a. unfold gap_ok. rewrite N.sub_diag. reflexivity. Qed.
+
+Lemma insert_region_last : forall r l, Forall (fun x => fst x < fst r) l -> insert_region r l = l ++ [r].
+Proof.
+  intros r. induction l as [|h t IH]; intros H; [reflexivity|].
+  inversion H as [|? ? H1 H2]; subst. cbn [insert_region].
+  replace (fst r <=? fst h) with false by (symmetry; apply N.leb_gt; exact H1).
+  rewrite (IH H2). reflexivity.
+Qed.
+
+Fixpoint inc_fst (l : list (N * N)) : Prop :=
+  match l with [] => True | x :: t => Forall (fun y => fst x < fst y) t /\ inc_fst t end.
+
+Lemma sort_rev_sorted : forall t acc,
+  Forall (fun x => Forall (fun y : N * N => fst x < fst y) t) acc -> inc_fst t ->
+  fold_right insert_region acc (rev t) = acc ++ t.
+Proof.
+  induction t as [|r t IH]; intros acc Hacc Hinc; [cbn; rewrite app_nil_r; reflexivity|].
+  destruct Hinc as [Hr Hinc]. cbn [rev]. rewrite fold_right_app. cbn [fold_right].
+  rewrite insert_region_last.
+  - rewrite IH; [rewrite <- app_assoc; reflexivity | | exact Hinc].
+    apply Forall_app. split.
+    + eapply Forall_impl; [|exact Hacc]. intros x Hx. inversion Hx; assumption.
+    + constructor; [exact Hr|constructor].
+  - eapply Forall_impl; [|exact Hacc]. intros x Hx. inversion Hx; assumption.
+Qed.
+
+Definition idregs (d : doc) (ids : list N) (pos : N) : list (N * N) :=
+  map (fun p => (snd p, snd p + N.of_nat (length (w_chunk d (fst p))))) (idoffs d ids pos).
+
+Lemma idoffs_ge : forall d ids pos p, In p (idoffs d ids pos) -> pos <= snd p.
+Proof.
+  intros d. induction ids as [|id t IH]; intros pos p Hin; [destruct Hin|].
+  cbn [idoffs] in Hin. destruct Hin as [<-|Hin]; [cbn; lia|]. apply IH in Hin. lia.
+Qed.
+
+Lemma w_chunk_pos : forall d id, (0 < length (w_chunk d id))%nat.
+Proof. intros d id. apply chunk_of_length_pos. Qed.
+
+Lemma idregs_inc : forall d ids pos, inc_fst (idregs d ids pos).
+Proof.
+  intros d. induction ids as [|id t IH]; intros pos; [exact I|].
+  unfold idregs. cbn [idoffs map]. split; [|apply IH].
+  apply Forall_forall. intros y Hy. apply in_map_iff in Hy. destruct Hy as [p [<- Hp]].
+  apply idoffs_ge in Hp. pose proof (w_chunk_pos d id). cbn [fst snd]. lia.
+Qed.
+
+Lemma idregs_fst_ge : forall d ids pos y, In y (idregs d ids pos) -> pos <= fst y.
+Proof.
+  intros d ids pos y Hy. apply in_map_iff in Hy. destruct Hy as [p [<- Hp]].
+  apply idoffs_ge in Hp. exact Hp.
+Qed.
+
+Lemma idregs_fst_lt : forall d ids pos y, In y (idregs d ids pos) ->
+  fst y < pos + N.of_nat (length (concat (map (w_chunk d) ids))).
+Proof.
+  intros d. induction ids as [|id t IH]; intros pos y Hy; [destruct Hy|].
+  unfold idregs in Hy. cbn [idoffs map] in Hy. cbn [map concat]. rewrite app_length.
+  pose proof (w_chunk_pos d id).
+  destruct Hy as [<-|Hy]; [cbn [fst snd]; lia|]. apply IH in Hy. lia.
+Qed.
+
+Lemma regions_ok_chain : forall d file total ids pos l,
+  regions_ok file pos (idregs d ids pos ++ l) total
+  = regions_ok file (pos + N.of_nat (length (concat (map (w_chunk d) ids)))) l total.
+Proof.
+  intros d file total. induction ids as [|id t IH]; intros pos l.
+  - cbn. rewrite N.add_0_r. reflexivity.
+  - unfold idregs. cbn [idoffs map app regions_ok fst snd].
+    rewrite N.ltb_irrefl, gap_ok_refl. cbn [negb].
+    fold (idregs d t (pos + N.of_nat (length (w_chunk d id)))). rewrite IH.
+    cbn [map concat]. rewrite app_length. f_equal. lia.
+Qed.
+
 Record wf_doc (d : doc) : Prop := {
   wfd_closed : doc_closed d;
   wfd_objs : wf_doc_objs d;
@@ -571,9 +1213,289 @@ Record wf_doc (d : doc) : Prop := {
   wfd_size : exists z, find (fun kv => beqb (fst kv) k_Size) (d_trailer d) = Some (k_Size, OInt z);
   wfd_keys_nodup : NoDup (map fst (d_trailer d))
                    /\ ~ In [73; 68] (map fst (d_trailer d))
-                   /\ (forall k i dd, In (k, i) (d_objects d) -> i_val i = ODict dd -> NoDup (map fst dd))
+                   /\ (forall k i dd, In (k, i) (d_objects d) -> i_val i = ODict dd -> NoDup (map fst dd));
+  (* added by the prover: the strict reader follows /Prev to an older section and /XRefStm to a hybrid
+     cross-reference stream; the model writes a single classic section, so a (trimmed) trailer carrying
+     either key would make the reader look for sections that do not exist *)
+  wfd_no_prev : ~ In n_Prev (map fst (d_trailer d));
+  wfd_no_xrefstm : ~ In k_XRefStm (map fst (d_trailer d))
 }.
 
+
+(* ---------- the trailer dictionary of the document ---------- *)
+Definition et_entries (d : doc) : list (list N * pobj) :=
+  flat_map (fun kv => if is_null_val (d_objects d) (snd kv) then []
+                      else [(fst kv, if beqb (fst kv) k_Size then SpInt (Z.of_N (w_n d + 1))
+                                     else to_pobj (d_objects d) (doc_ren d) (snd kv))]) (d_trailer d).
+Lemma expected_trailer_eq : forall d,
+  expected_trailer d = et_entries d ++ [([73; 68], SpArr [SpStr (d_id1 d); SpStr (d_id2 d)])].
+Proof. reflexivity. Qed.
+
+Definition w_trailer' (d : doc) : list (list N * obj) :=
+  map (fun kv => if beqb (fst kv) k_Size then (fst kv, OInt (Z.of_N (w_n d + 1))) else kv) (d_trailer d).
+
+Lemma nodup_key_unique : forall (A B : Type) (l : list (A * B)) k a b,
+  NoDup (map fst l) -> In (k, a) l -> In (k, b) l -> a = b.
+Proof.
+  intros A B. induction l as [|[k' v] t IH]; intros k a b Hnd Ha Hb; [destruct Ha|].
+  cbn [map fst] in Hnd. inversion Hnd as [|? ? H1 H2]; subst.
+  destruct Ha as [Ha|Ha]; destruct Hb as [Hb|Hb].
+  - congruence.
+  - inversion Ha; subst. exfalso. apply H1. apply in_map_iff. exists (k, b). split; [reflexivity|exact Hb].
+  - inversion Hb; subst. exfalso. apply H1. apply in_map_iff. exists (k, a). split; [reflexivity|exact Ha].
+  - exact (IH k a b H2 Ha Hb).
+Qed.
+
+Lemma beqb_eq : forall a b, beqb a b = true <-> a = b.
+Proof. intros a b. unfold beqb. apply list_eqb_N_eq. Qed.
+
+Section TrailerFacts.
+  Variable d : doc.
+  Hypothesis Hnd : NoDup (map fst (d_trailer d)).
+  Variable zs : Z.
+  Hypothesis Hsize : find (fun kv => beqb (fst kv) k_Size) (d_trailer d) = Some (k_Size, OInt zs).
+
+  Lemma size_entry_nonnull : forall kv, In kv (d_trailer d) -> beqb (fst kv) k_Size = true ->
+    is_null_val (d_objects d) (snd kv) = false.
+  Proof.
+    intros [k v] Hin Hk. cbn [fst snd] in *. apply beqb_eq in Hk. subst k.
+    apply find_some in Hsize. destruct Hsize as [Hs _].
+    rewrite (nodup_key_unique _ _ _ _ _ _ Hnd Hin Hs). reflexivity.
+  Qed.
+
+  Lemma trailer_text_eq : forall l, (forall kv, In kv l -> In kv (d_trailer d)) ->
+    flat_map (w_tg d) l
+    = flat_map (gd WUS WUN (d_objects d) (doc_ren d))
+               (map (fun kv => if beqb (fst kv) k_Size then (fst kv, OInt (Z.of_N (w_n d + 1))) else kv) l)
+    /\ flat_map (fun kv => if is_null_val (d_objects d) (snd kv) then []
+                      else [(fst kv, if beqb (fst kv) k_Size then SpInt (Z.of_N (w_n d + 1))
+                                     else to_pobj (d_objects d) (doc_ren d) (snd kv))]) l
+       = pdict (d_objects d) (doc_ren d)
+               (map (fun kv => if beqb (fst kv) k_Size then (fst kv, OInt (Z.of_N (w_n d + 1))) else kv) l).
+  Proof.
+    induction l as [|kv t IH]; intros Hin; [split; reflexivity|].
+    destruct IH as [IH1 IH2]; [intros x Hx; apply Hin; right; exact Hx|].
+    cbn [flat_map map pdict]. rewrite IH1, IH2. unfold w_tg at 1, gd at 2.
+    destruct (beqb (fst kv) k_Size) eqn:E.
+    - rewrite (size_entry_nonnull kv (Hin kv (or_introl eq_refl)) E).
+      cbn [fst snd is_null_val unparse to_pobj]. rewrite dec_of_Z_of_N. split; reflexivity.
+    - destruct (is_null_val (d_objects d) (snd kv)); split; reflexivity.
+  Qed.
+End TrailerFacts.
+
+Lemma has_dup_keys_nodup : forall l, NoDup (map fst l) -> has_dup_keys l = false.
+Proof.
+  induction l as [|[k v] t IH]; intros H; [reflexivity|].
+  cbn [map fst] in H. inversion H as [|? ? H1 H2]; subst. cbn [has_dup_keys].
+  rewrite (IH H2), orb_false_r.
+  destruct (existsb (fun kv => beq k (fst kv)) t) eqn:E; [|reflexivity].
+  apply existsb_exists in E. destruct E as [[k' v'] [Hin Hk]]. cbn [fst] in Hk.
+  apply list_eqb_N_eq in Hk. subst k'. exfalso. apply H1. apply in_map_iff. exists (k, v'). split; [reflexivity|exact Hin].
+Qed.
+
+Lemma dict_get_none : forall l k, ~ In k (map fst l) -> dict_get l k = None.
+Proof.
+  induction l as [|[k' v] t IH]; intros k H; [reflexivity|].
+  cbn [dict_get]. destruct (beq k k') eqn:E.
+  - apply list_eqb_N_eq in E. subst k'. exfalso. apply H. left. reflexivity.
+  - apply IH. intros Hin. apply H. right. exact Hin.
+Qed.
+
+Lemma dict_get_in : forall l k v, NoDup (map fst l) -> In (k, v) l -> dict_get l k = Some v.
+Proof.
+  induction l as [|[k' v'] t IH]; intros k v Hnd Hin; [destruct Hin|].
+  cbn [map fst] in Hnd. inversion Hnd as [|? ? H1 H2]; subst. cbn [dict_get].
+  destruct Hin as [Heq|Hin].
+  - inversion Heq; subst. unfold beq. replace (list_eqb N.eqb k k) with true by (symmetry; apply list_eqb_N_eq; reflexivity).
+    reflexivity.
+  - destruct (beq k k') eqn:E.
+    + apply list_eqb_N_eq in E. subst k'. exfalso. apply H1. apply in_map_iff. exists (k, v). split; [reflexivity|exact Hin].
+    + apply IH; assumption.
+Qed.
+
+Lemma et_entries_keys : forall d k, In k (map fst (et_entries d)) -> In k (map fst (d_trailer d)).
+Proof.
+  intros d k. unfold et_entries. induction (d_trailer d) as [|kv t IH]; intros H; [destruct H|].
+  cbn [flat_map] in H. rewrite map_app in H. apply in_app_or in H. destruct H as [H|H].
+  - destruct (is_null_val (d_objects d) (snd kv)); [destruct H|].
+    destruct H as [H|[]]. left. exact H.
+  - right. apply IH. exact H.
+Qed.
+
+Lemma et_entries_nodup : forall d, NoDup (map fst (d_trailer d)) -> NoDup (map fst (et_entries d)).
+Proof.
+  intros d. unfold et_entries. induction (d_trailer d) as [|kv t IH]; intros H; [constructor|].
+  cbn [map fst] in H. inversion H as [|? ? H1 H2]; subst.
+  cbn [flat_map]. rewrite map_app.
+  destruct (is_null_val (d_objects d) (snd kv)); [apply IH; exact H2|].
+  cbn [map fst app]. constructor; [|apply IH; exact H2].
+  intros Hin. apply H1. clear -Hin.
+  induction t as [|kv' t IH]; [destruct Hin|].
+  cbn [flat_map] in Hin. rewrite map_app in Hin. apply in_app_or in Hin. destruct Hin as [Hin|Hin].
+  - destruct (is_null_val (d_objects d) (snd kv')); [destruct Hin|]. destruct Hin as [Hin|[]]. left. exact Hin.
+  - right. apply IH. exact Hin.
+Qed.
+
+Lemma et_entries_in : forall d k v, In (k, v) (d_trailer d) -> is_null_val (d_objects d) v = false ->
+  In (k, if beqb k k_Size then SpInt (Z.of_N (w_n d + 1)) else to_pobj (d_objects d) (doc_ren d) v) (et_entries d).
+Proof.
+  intros d k v Hin Hn. unfold et_entries. apply in_flat_map. exists (k, v). split; [exact Hin|].
+  cbn [fst snd]. rewrite Hn. left. reflexivity.
+Qed.
+
+Lemma expected_trailer_nodup : forall d, NoDup (map fst (d_trailer d)) -> ~ In [73; 68] (map fst (d_trailer d)) ->
+  NoDup (map fst (expected_trailer d)).
+Proof.
+  intros d H1 H2. rewrite expected_trailer_eq, map_app. cbn [map fst].
+  apply (NoDup_Add (Add_app [73; 68] (map fst (et_entries d)) [])). rewrite app_nil_r. split.
+  - apply et_entries_nodup. exact H1.
+  - intros H. apply H2. apply et_entries_keys. exact H.
+Qed.
+
+Lemma expected_trailer_get_none : forall d k, ~ In k (map fst (d_trailer d)) -> k <> [73; 68] ->
+  dict_get (expected_trailer d) k = None.
+Proof.
+  intros d k H1 H2. apply dict_get_none. rewrite expected_trailer_eq, map_app. intros H.
+  apply in_app_or in H. destruct H as [H|[H|[]]].
+  - apply H1. apply et_entries_keys. exact H.
+  - apply H2. symmetry. exact H.
+Qed.
+
+(* ---------- read_strict on a file with one classic section and no compressed objects ---------- *)
+Definition region_of (o : sobj) : N * N := (match so_where o with XInUse off _ => off | _ => 0 end, so_end o).
+
+Lemma Forall2_map_left : forall (A B C : Type) (R : B -> C -> Prop) (f : A -> B) l l',
+  Forall2 (fun a c => R (f a) c) l l' -> Forall2 R (map f l) l'.
+Proof. intros A B C R f l l' H. induction H; cbn [map]; constructor; assumption. Qed.
+
+Lemma Forall2_impl : forall (A B : Type) (R R' : A -> B -> Prop) l l',
+  (forall a b, R a b -> R' a b) -> Forall2 R l l' -> Forall2 R' l l'.
+Proof. intros A B R R' l l' H H2. induction H2; constructor; auto. Qed.
+
+Lemma read_strict_one_section_lemma : forall file ver after_hdr sx xoff sec g0 g1 (kos : list (N * N)) sos size rn g o' g',
+  let total := N.of_nat (length file) in
+  let xr := (0, XFree g0 g1) :: map (fun ko : N * N => (fst ko, XInUse (snd ko) 0)) kos in
+  let regions := sort_regions ((0, offset_of total after_hdr) :: (sx, total) :: [sec_region sec] ++ map region_of (rev sos)) in
+  parse_header file = Some (ver, after_hdr) ->
+  find_last k_startxref file 0 None = Some sx ->
+  parse_tail (at_off file sx) = Some (xoff, []) ->
+  read_section (length file) total sx file xoff = inl sec ->
+  dict_get (sec_dict sec) n_Prev = None ->
+  sec_obj sec = None ->
+  merge_x [] (sec_entries sec) = xr ->
+  Forall (fun ke => lookup_x (fst ke) xr = Some (snd ke)) (sec_entries sec) ->
+  NoDup (map fst xr) ->
+  Forall2 (fun ko so => (forall len_of, parse_indirect (length file) total file (snd ko) len_of = inl (Some so))
+                        /\ so_num so = fst ko /\ so_gen so = 0) kos sos ->
+  get_int (sec_dict sec) n_Size = Some size -> size = max_num xr 0 + 1 ->
+  dict_get (sec_dict sec) n_Root = Some (SpRef rn g) -> lookup_x rn xr = Some (XInUse o' g') ->
+  regions_ok file 0 regions total = None ->
+  read_strict file = RsOk {| sf_version := ver; sf_trailer := sec_dict sec; sf_objs := rev sos;
+                             sf_xref_stream := sec_is_stream sec; sf_sections := 1;
+                             sf_startxref := xoff; sf_regions := regions |}.
+Proof.
+  intros file ver after_hdr sx xoff sec g0 g1 kos sos size rn g o' g' total xr regions
+         Hhdr Hfl Htail Hsec Hprev Hsobj Hxr Hlk Hnd Hobjs Hsize Hmax Hroot Hlook Hreg.
+  unfold read_strict. fold total. rewrite Hhdr, Hfl, Htail. cbn [negb].
+  cbn [read_chain existsb]. rewrite Hsec, Hprev.
+  cbn [hd fold_left]. rewrite Hxr.
+  (* in-use objects *)
+  match goal with |- match fold_left ?F _ _ with inl _ => _ | inr _ => _ end = _ =>
+    assert (H1 : fold_left F xr (inl []) = inl (rev sos ++ [])) end.
+  { unfold xr. cbn [fold_left]. apply fold_collect. apply Forall2_map_left.
+    eapply Forall2_impl; [|exact Hobjs]. intros ko so [Hp [Hn Hg]] objs. cbv beta iota.
+    rewrite Hp, Hn, Hg, !N.eqb_refl. reflexivity. }
+  rewrite H1. clear H1.
+  (* no compressed objects *)
+  match goal with |- match fold_left ?F _ _ with inl _ => _ | inr _ => _ end = _ =>
+    assert (H2 : fold_left F xr (inl []) = inl []) end.
+  { apply fold_skip. unfold xr. constructor; [intros; reflexivity|].
+    apply Forall_forall. intros ke Hke. apply in_map_iff in Hke. destruct Hke as [ko [<- _]].
+    intros; reflexivity. }
+  rewrite H2. clear H2.
+  rewrite Hsize. rewrite Hmax, N.eqb_refl. cbn [negb]. rewrite Hroot, Hlook.
+  (* regions *)
+  cbn [flat_map map existsb]. rewrite Hsobj. cbn [orb negb].
+  rewrite (filter_all _ (fun _ : sobj => true)) by reflexivity.
+  rewrite (flat_map_nil _ _ _ (sec_entries sec)).
+  - rewrite !app_nil_r.
+    match goal with |- match regions_ok ?a ?b ?c ?e with _ => _ end = _ =>
+      replace (regions_ok a b c e) with (@None N) by (symmetry; exact Hreg) end.
+    reflexivity.
+  - eapply Forall_impl; [|exact Hlk]. intros [k e] Hke. cbn [fst snd] in *.
+    destruct e as [? ?|off gen|? ?]; try reflexivity.
+    rewrite Hke, N.eqb_refl. reflexivity.
+Qed.
+
+(* ---------- document-level facts for the capstone ---------- *)
+Lemma Forall2_in_left : forall (A B : Type) (R : A -> B -> Prop) l l' a,
+  Forall2 R l l' -> In a l -> exists b, In b l' /\ R a b.
+Proof.
+  intros A B R l l' a H. induction H as [|x y l l' Hxy H IH]; intros Hin; [destruct Hin|].
+  destruct Hin as [<-|Hin]; [exists y; split; [left; reflexivity|exact Hxy]|].
+  destruct (IH Hin) as [b' [Hb Hr]]. exists b'. split; [right; exact Hb|exact Hr].
+Qed.
+
+Lemma Forall2_map_eq : forall (A B C : Type) (R : A -> B -> Prop) (f : B -> C) (g : A -> C) l l',
+  Forall2 R l l' -> (forall a b, R a b -> f b = g a) -> map f l' = map g l.
+Proof.
+  intros A B C R f g l l' H Hfg. induction H as [|x y l l' Hxy H IH]; [reflexivity|].
+  cbn [map]. rewrite IH, (Hfg _ _ Hxy). reflexivity.
+Qed.
+
+Lemma Forall2_length' : forall (A B : Type) (R : A -> B -> Prop) l l', Forall2 R l l' -> length l = length l'.
+Proof. intros A B R l l' H. induction H; cbn [length]; congruence. Qed.
+
+Lemma combine_map_fst : forall (A B : Type) (l : list (A * B)), combine (map fst l) l = map (fun p => (fst p, p)) l.
+Proof. intros A B. induction l as [|p t IH]; [reflexivity|]. cbn [map combine]. rewrite IH. reflexivity. Qed.
+
+Lemma insert_region_first : forall r l, l <> [] -> fst r = 0 -> insert_region r l = r :: l.
+Proof.
+  intros r [|h t] Hne Hr; [congruence|]. cbn [insert_region].
+  replace (fst r <=? fst h) with true by (symmetry; apply N.leb_le; lia). reflexivity.
+Qed.
+
+Lemma idoffs_lt : forall d ids pos p, In p (idoffs d ids pos) ->
+  snd p < pos + N.of_nat (length (concat (map (w_chunk d) ids))).
+Proof.
+  intros d ids pos p Hp.
+  apply (idregs_fst_lt d ids pos (snd p, snd p + N.of_nat (length (w_chunk d (fst p))))).
+  unfold idregs. apply in_map_iff. exists p. split; [reflexivity|exact Hp].
+Qed.
+
+Lemma root_in_roots : forall d r, find (fun kv => beqb (fst kv) k_Root) (d_trailer d) = Some (k_Root, ORef r) ->
+  In r (roots_of d).
+Proof. intros d r H. unfold roots_of. rewrite H. cbn [refs_of]. left. reflexivity. Qed.
+
+Lemma roots_written : forall d x, doc_closed d -> In x (roots_of d) -> In x (w_ids d).
+Proof.
+  intros d x Hc Hx. destruct (queue_complete_lemma _ _ Hc) as [_ Hq]. apply Hq. apply reach_root. exact Hx.
+Qed.
+
+Lemma trailer_refs_roots : forall d r zs,
+  NoDup (map fst (d_trailer d)) ->
+  find (fun kv => beqb (fst kv) k_Root) (d_trailer d) = Some (k_Root, ORef r) ->
+  find (fun kv => beqb (fst kv) k_Size) (d_trailer d) = Some (k_Size, OInt zs) ->
+  forall x, In x (refs_of (d_objects d) (ODict (w_trailer' d))) -> In x (roots_of d).
+Proof.
+  intros d r zs Hnd Hroot Hsize x Hx. cbn [refs_of] in Hx. apply in_flat_map in Hx.
+  destruct Hx as [kv' [Hkv' Hx]]. unfold w_trailer' in Hkv'. apply in_map_iff in Hkv'.
+  destruct Hkv' as [kv [<- Hkv]].
+  destruct (beqb (fst kv) k_Size) eqn:Es; [cbn [snd is_null_val refs_of] in Hx; destruct Hx|].
+  destruct (is_null_val (d_objects d) (snd kv)) eqn:En; [destruct Hx|].
+  destruct (beqb (fst kv) k_Root) eqn:Er.
+  - apply beqb_eq in Er. destruct kv as [k v]. cbn [fst snd] in *. subst k.
+    pose proof (find_some _ _ Hroot) as [Hr _].
+    rewrite (nodup_key_unique _ _ _ _ _ _ Hnd Hkv Hr) in Hx.
+    unfold roots_of. rewrite Hroot. apply in_or_app. left. exact Hx.
+  - unfold roots_of. apply in_or_app. right. apply in_flat_map. exists kv. split; [exact Hkv|].
+    rewrite Er, En. exact Hx.
+Qed.
+
+Lemma dict_flat_inj : forall (g1 g2 : list N * obj -> list N) l,
+  [60; 60] ++ flat_map g1 l ++ [32; 62; 62] = [60; 60] ++ flat_map g2 l ++ [32; 62; 62] ->
+  flat_map g1 l = flat_map g2 l.
+Proof. intros g1 g2 l H. apply app_inv_head in H. apply app_inv_tail in H. exact H. Qed.
 Lemma write_read_strict_lemma : forall d, wf_doc d ->
   N.of_nat (length (wm_out d)) < 10 ^ 10 ->
   exists f, read_strict (wm_out d) = RsOk f
@@ -584,4 +1506,296 @@ Lemma write_read_strict_lemma : forall d, wf_doc d ->
     /\ (forall id i, In id (written (graph_of d) (roots_of d)) -> find_obj (d_objects d) id = Some i ->
           exists so, In so (sf_objs f)
                      /\ sobj_view (wm_out d) so = (doc_ren d id, 0, expected_val d i, i_stream i)).
-Proof. Abort.
+Proof.
+  intros d W Hlt.
+  destruct W as [Hc Hobjs Htr Hst Hsb [a [b [Hver [Ha Hb]]]] [Hid1 Hid2] [r [ir [Hroot [Hfr Hnn]]]]
+                 [zs Hsize] [Hnd [Hnoid Hdk]] Hnoprev Hnoxs].
+  set (out := wm_out d) in *. set (total := N.of_nat (length out)) in *.
+  set (objs := d_objects d) in *.
+  assert (Hlay : out = w_hdr d ++ w_bodies d ++ w_xref d ++ w_trailer d ++ w_tail d)
+    by apply write_doc_layout_lemma.
+  set (lh := length (w_hdr d)). set (lb := length (w_bodies d)). set (lx := length (w_xref d)).
+  set (lt := length (w_trailer d)). set (ltl := length (w_tail d)).
+  assert (Hlen : length out = (lh + lb + lx + lt + ltl)%nat).
+  { rewrite Hlay, !app_length. unfold lh, lb, lx, lt, ltl. lia. }
+  assert (Hlx : (7 <= lx)%nat).
+  { unfold lx, w_xref. rewrite app_length. cbn [length]. lia. }
+  (* the trailer text *)
+  set (ren' := patched_ren d).
+  set (T' := w_trailer' d).
+  assert (Hext : forall x, In x (refs_of objs (ODict T')) -> doc_ren d x = ren' x).
+  { intros x Hx. apply patched_ren_eq. apply written_ren_pos; [exact Hc|].
+    apply roots_written; [exact Hc|]. exact (trailer_refs_roots d r zs Hnd Hroot Hsize x Hx). }
+  destruct (ren_ext WUS WUN objs (doc_ren d) ren' (ODict T') Hext) as [HU HP].
+  destruct (trailer_text_eq d Hnd zs Hsize (d_trailer d) (fun kv H => H)) as [Htxt Hpd].
+  fold T' in Htxt, Hpd. fold (et_entries d) in Hpd. fold objs in Htxt, Hpd.
+  assert (Htxt' : flat_map (w_tg d) (d_trailer d) = flat_map (gd WUS WUN objs ren') T').
+  { rewrite Htxt. apply dict_flat_inj. exact HU. }
+  assert (Hpd' : pdict objs ren' T' = et_entries d).
+  { rewrite Hpd.
+    change (to_pobj objs (doc_ren d) (ODict T')) with (SpDict (pdict objs (doc_ren d) T')) in HP.
+    change (to_pobj objs ren' (ODict T')) with (SpDict (pdict objs ren' T')) in HP.
+    injection HP as HP. symmetry. exact HP. }
+  assert (HwfT : Forall wf_entry T').
+  { apply wf_dict in Htr. unfold T', w_trailer'. rewrite Forall_forall in *. intros kv' Hkv'.
+    apply in_map_iff in Hkv'. destruct Hkv' as [kv [<- Hkv]]. specialize (Htr kv Hkv).
+    destruct (beqb (fst kv) k_Size); [|exact Htr]. destruct Htr as [Hk _]. split; [exact Hk|exact I]. }
+  (* the written objects *)
+  set (ids := w_ids d).
+  destruct (all_objects_read d (length out) Hc Hobjs Hst (le_n _) ids (N.of_nat lh) (w_hdr d)
+              (w_xref d ++ w_trailer d ++ w_tail d) (fun id H => H) Hlay (Nat2N.id _)) as [sos Hsos].
+  set (io := idoffs d ids (N.of_nat lh)) in *.
+  assert (Hoffs : w_offs d = map (fun p => (doc_ren d (fst p), snd p)) io) by apply offs_of_idoffs.
+  assert (Hnoffs : length (w_offs d) = length ids) by apply offs_of_length.
+  assert (Hoffs_lt : Forall (fun ko : N * N => snd ko < 10 ^ 10) (w_offs d)).
+  { rewrite Hoffs. apply Forall_forall. intros ko Hko. apply in_map_iff in Hko. destruct Hko as [p [<- Hp]].
+    cbn [snd]. apply idoffs_lt in Hp.
+    assert (Hlb : length (concat (map (w_chunk d) ids)) = lb) by reflexivity.
+    rewrite Hlb in Hp. unfold total in Hlt. lia. }
+  (* the section *)
+  set (sx := N.of_nat (lh + lb + lx + lt)).
+  set (R := 10 :: dec_of_N (w_xoff d) ++ [10; 37; 37; 69; 79; 70; 10]).
+  assert (Htl : w_tail d = k_startxref ++ R) by reflexivity.
+  set (sec := {| sec_entries := model_entries (w_offs d); sec_dict := expected_trailer d; sec_is_stream := false;
+                 sec_region := (w_xoff d, offset_of total (10 :: k_startxref ++ R)); sec_tail_value := 0;
+                 sec_obj := None |}).
+  assert (Hfuel : exists f, length out = S (S f)).
+  { exists (length out - 2)%nat. lia. }
+  destruct Hfuel as [f Hf].
+  assert (Hsec : read_section (length out) total sx out (w_xoff d) = inl sec).
+  { rewrite Hf.
+    apply (read_section_model_lemma f total sx out (w_xoff d) (w_offs d)
+             (60 :: 60 :: flat_map (w_tg d) (d_trailer d) ++ [32; 47; 73; 68; 32; 91] ++ hexstr (d_id1 d)
+                ++ hexstr (d_id2 d) ++ [93] ++ [32; 62; 62; 10] ++ k_startxref ++ R)
+             (expected_trailer d) R Hoffs_lt).
+    - unfold at_off, w_xoff. fold lh lb. rewrite Hlay.
+      replace (N.to_nat (N.of_nat lh + N.of_nat lb)) with (length (w_hdr d) + length (w_bodies d))%nat by (unfold lh, lb; lia).
+      rewrite skipn_add, skipn_app, skipn_all, Nat.sub_diag. cbn [skipn app].
+      rewrite skipn_app, skipn_all, Nat.sub_diag. cbn [skipn app].
+      unfold w_xref, w_trailer, w_lines, w_n. fold ids. rewrite Hnoffs, Htl. rewrite <- !app_assoc. reflexivity.
+    - rewrite Htxt'. rewrite (trailer_dict_parses objs ren' (patched_ren_pos d) (S f) T' (d_id1 d) (d_id2 d) (k_startxref ++ R)
+                                 HwfT Hid1 Hid2).
+      + rewrite Hpd'. reflexivity.
+      + rewrite <- Htxt'.
+        assert (length (flat_map (w_tg d) (d_trailer d)) + 20 <= lt)%nat.
+        { unfold lt, w_trailer. rewrite !app_length. cbn [length]. lia. }
+        lia.
+    - apply has_dup_keys_nodup. apply expected_trailer_nodup; assumption.
+    - apply expected_trailer_get_none; [exact Hnoxs | discriminate].
+    - unfold offset_of, total, sx. rewrite <- Htl. fold ltl. lia. }
+  (* header, startxref, tail *)
+  destruct (model_header_parses_lemma d a b Hver Ha Hb) as [after_hdr [Hhdr Hah]].
+  fold (wm_out d) in Hhdr, Hah. fold out in Hhdr, Hah. fold (w_hdr d) in Hah. fold lh in Hah.
+  assert (Hpre : out = (w_hdr d ++ w_bodies d ++ w_xref d ++ w_trailer d) ++ k_startxref ++ R).
+  { rewrite Hlay, Htl, <- !app_assoc. reflexivity. }
+  assert (Hprelen : length (w_hdr d ++ w_bodies d ++ w_xref d ++ w_trailer d) = (lh + lb + lx + lt)%nat).
+  { rewrite !app_length. unfold lh, lb, lx, lt. lia. }
+  assert (Hfl : find_last k_startxref out 0 None = Some sx).
+  { rewrite Hpre. unfold R. rewrite find_last_startxref, Hprelen. reflexivity. }
+  assert (Htail : parse_tail (at_off out sx) = Some (w_xoff d, [])).
+  { unfold at_off, sx. rewrite Nat2N.id, <- Hprelen, Hpre, skipn_app, skipn_all, Nat.sub_diag. cbn [skipn app].
+    unfold R. apply parse_tail_model. }
+  (* the merged table *)
+  set (xr := (0, XFree 0 65535) :: map (fun ko : N * N => (fst ko, XInUse (snd ko) 0)) (w_offs d)).
+  assert (Hnum : map fst (w_offs d) = map N.of_nat (seq 1 (length (w_offs d)))).
+  { rewrite <- w_offs_eq. apply body_numbers_lemma. exact Hc. }
+  assert (Hme : model_entries (w_offs d) = rev xr).
+  { unfold model_entries, xr. rewrite <- Hnum, combine_map_fst, map_map. cbn [rev fst snd]. reflexivity. }
+  assert (Hndx : NoDup (map fst xr)).
+  { unfold xr. cbn [map fst]. rewrite map_map. cbn [fst].
+    change (map (fun x : N * N => fst x) (w_offs d)) with (map fst (w_offs d)). rewrite Hnum.
+    constructor.
+    - intros H. apply in_map_iff in H. destruct H as [n0 [H0 Hn0]]. apply in_seq in Hn0. lia.
+    - apply NoDup_map_of_nat. apply seq_NoDup. }
+  assert (Hxr : merge_x [] (sec_entries sec) = xr).
+  { cbn [sec_entries sec]. rewrite merge_x_rev.
+    - rewrite Hme, rev_involutive, app_nil_r. reflexivity.
+    - rewrite app_nil_r, Hme, map_rev. apply NoDup_rev. exact Hndx. }
+  assert (Hlk : Forall (fun ke => lookup_x (fst ke) xr = Some (snd ke)) (sec_entries sec)).
+  { cbn [sec_entries sec]. rewrite Hme. apply Forall_forall. intros [k e] Hke. apply in_rev in Hke.
+    cbn [fst snd]. apply lookup_x_in; assumption. }
+  assert (Hobjs2 : Forall2 (fun ko so => (forall len_of, parse_indirect (length out) total out (snd ko) len_of = inl (Some so))
+                                         /\ so_num so = fst ko /\ so_gen so = 0) (w_offs d) sos).
+  { rewrite Hoffs. apply Forall2_map_left. eapply Forall2_impl; [|exact Hsos].
+    intros p so [H1 [H2 [H3 _]]]. cbn [fst snd]. repeat split; assumption. }
+  (* /Size and /Root *)
+  assert (Hetnd : NoDup (map fst (expected_trailer d))) by (apply expected_trailer_nodup; assumption).
+  assert (Hgsize : get_int (sec_dict sec) n_Size = Some (w_n d + 1)).
+  { cbn [sec_dict sec]. unfold get_int.
+    rewrite (dict_get_in (expected_trailer d) n_Size (SpInt (Z.of_N (w_n d + 1))) Hetnd).
+    - replace (0 <=? Z.of_N (w_n d + 1))%Z with true by (symmetry; apply Z.leb_le; lia).
+      rewrite N2Z.id. reflexivity.
+    - rewrite expected_trailer_eq. apply in_or_app. left.
+      pose proof (find_some _ _ Hsize) as [Hs _].
+      exact (et_entries_in d k_Size (OInt zs) Hs eq_refl). }
+  assert (Hmax : w_n d + 1 = max_num xr 0 + 1).
+  { f_equal. rewrite max_num_fold. unfold xr. cbn [map fst fold_max]. rewrite map_map. cbn [fst].
+    change (map (fun x : N * N => fst x) (w_offs d)) with (map fst (w_offs d)). rewrite Hnum, Hnoffs.
+    unfold w_n. fold ids.
+    destruct (fold_max_seq (length ids) 1 (N.max 0 0)) as [H|H].
+    - rewrite H. lia.
+    - rewrite H. reflexivity. }
+  assert (Hgroot : dict_get (sec_dict sec) n_Root = Some (SpRef (doc_ren d r) 0)).
+  { cbn [sec_dict sec]. apply (dict_get_in _ _ _ Hetnd).
+    rewrite expected_trailer_eq. apply in_or_app. left.
+    pose proof (find_some _ _ Hroot) as [Hr _].
+    exact (et_entries_in d k_Root (ORef r) Hr Hnn). }
+  assert (Hrw : In r ids).
+  { apply roots_written; [exact Hc|]. apply (root_in_roots d r Hroot). }
+  assert (Hlook : exists o', lookup_x (doc_ren d r) xr = Some (XInUse o' 0)).
+  { rewrite <- (idoffs_fst d ids (N.of_nat lh)) in Hrw. fold io in Hrw. apply in_map_iff in Hrw.
+    destruct Hrw as [p [Hp1 Hp2]]. exists (snd p). apply lookup_x_in; [exact Hndx|].
+    right. apply in_map_iff. exists (doc_ren d r, snd p). split; [reflexivity|].
+    rewrite Hoffs. apply in_map_iff. exists p. rewrite Hp1. split; [reflexivity|exact Hp2]. }
+  destruct Hlook as [o' Hlook].
+  (* regions *)
+  set (regs := idregs d ids (N.of_nat lh)).
+  assert (Hregs : map region_of sos = regs).
+  { unfold regs, idregs. apply (Forall2_map_eq _ _ _ _ _ _ _ _ Hsos).
+    intros p so [_ [_ [_ [Hw [He _]]]]]. unfold region_of. rewrite Hw, He. reflexivity. }
+  assert (Hhe : offset_of total after_hdr = N.of_nat lh).
+  { unfold offset_of, total. rewrite Hah. lia. }
+  assert (HT1 : exists T1, w_trailer d = T1 ++ [10]).
+  { eexists. unfold w_trailer. change [32; 62; 62; 10] with ([32; 62; 62] ++ [10]).
+    rewrite !app_assoc. reflexivity. }
+  destruct HT1 as [T1 HT1].
+  assert (Hlt1 : lt = (length T1 + 1)%nat).
+  { unfold lt. rewrite HT1, app_length. reflexivity. }
+  set (send := offset_of total (10 :: k_startxref ++ R)).
+  assert (Hsend : send = N.of_nat (lh + lb + lx + length T1)).
+  { unfold send, offset_of, total. cbn [length]. rewrite <- Htl. fold ltl. lia. }
+  assert (Hxoff : w_xoff d = N.of_nat lh + N.of_nat lb) by reflexivity.
+  assert (Hsorted : sort_regions ((0, offset_of total after_hdr) :: (sx, total) :: [sec_region sec] ++ map region_of (rev sos))
+                    = (0, N.of_nat lh) :: regs ++ [(w_xoff d, send); (sx, total)]).
+  { rewrite Hhe, map_rev, Hregs. cbn [sec_region sec app]. fold send.
+    unfold sort_regions. cbn [fold_right].
+    rewrite (sort_rev_sorted regs []); [| constructor | apply idregs_inc]. cbn [app].
+    rewrite (insert_region_last (w_xoff d, send) regs).
+    - rewrite (insert_region_last (sx, total) (regs ++ [(w_xoff d, send)])).
+      + rewrite <- app_assoc. cbn [app]. apply insert_region_first; [|reflexivity].
+        destruct regs; discriminate.
+      + apply Forall_app. split.
+        * apply Forall_forall. intros y Hy. apply idregs_fst_lt in Hy.
+          change (length (concat (map (w_chunk d) ids))) with lb in Hy. cbn [fst]. unfold sx. lia.
+        * constructor; [|constructor]. cbn [fst]. unfold sx. lia.
+    - apply Forall_forall. intros y Hy. apply idregs_fst_lt in Hy.
+      change (length (concat (map (w_chunk d) ids))) with lb in Hy. cbn [fst]. lia. }
+  assert (Hgap : gap_ok out send sx = true).
+  { unfold gap_ok, at_off. rewrite Hsend. unfold sx.
+    replace (N.to_nat (N.of_nat (lh + lb + lx + lt) - N.of_nat (lh + lb + lx + length T1))) with 1%nat by lia.
+    rewrite Nat2N.id.
+    assert (Ho : out = (w_hdr d ++ w_bodies d ++ w_xref d ++ T1) ++ 10 :: w_tail d).
+    { rewrite Hlay, HT1, <- !app_assoc. reflexivity. }
+    assert (Hl : length (w_hdr d ++ w_bodies d ++ w_xref d ++ T1) = (lh + lb + lx + length T1)%nat).
+    { rewrite !app_length. unfold lh, lb, lx. lia. }
+    rewrite Ho at 1. rewrite <- Hl, skipn_app, skipn_all, Nat.sub_diag. reflexivity. }
+  assert (Hreg : regions_ok out 0 (sort_regions ((0, offset_of total after_hdr) :: (sx, total) :: [sec_region sec] ++ map region_of (rev sos))) total = None).
+  { rewrite Hsorted. cbn [regions_ok]. rewrite N.ltb_irrefl, gap_ok_refl. cbn [negb].
+    unfold regs. rewrite regions_ok_chain.
+    change (length (concat (map (w_chunk d) ids))) with lb. rewrite <- Hxoff.
+    cbn [regions_ok]. rewrite N.ltb_irrefl, gap_ok_refl. cbn [negb].
+    replace (sx <? send) with false by (symmetry; apply N.ltb_ge; rewrite Hsend; unfold sx; lia).
+    rewrite Hgap. cbn [negb]. rewrite gap_ok_refl. reflexivity. }
+  (* assemble *)
+  pose proof (read_strict_one_section_lemma out [a; 46; b] after_hdr sx (w_xoff d) sec 0 65535 (w_offs d) sos
+                (w_n d + 1) (doc_ren d r) 0 o' 0
+                Hhdr Hfl Htail Hsec (expected_trailer_get_none d n_Prev Hnoprev ltac:(discriminate))
+                eq_refl Hxr Hlk Hndx Hobjs2 Hgsize Hmax Hgroot Hlook Hreg) as Hrs.
+  eexists. split; [exact Hrs|].
+  cbn [sf_version sf_sections sf_xref_stream sf_trailer sf_objs sec_dict sec_is_stream sec].
+  split; [symmetry; exact Hver|]. split; [reflexivity|]. split; [reflexivity|]. split; [reflexivity|].
+  split.
+  - rewrite rev_length, <- (Forall2_length' _ _ _ _ _ Hsos). unfold io. apply idoffs_length.
+  - intros id i Hin Hfi.
+    assert (Hin' : In id (map fst io)) by (unfold io; rewrite idoffs_fst; exact Hin).
+    apply in_map_iff in Hin'. destruct Hin' as [p [Hp1 Hp2]].
+    destruct (Forall2_in_left _ _ _ _ _ _ Hsos Hp2) as [so [Hso1 [_ [_ [_ [_ [_ Hview]]]]]]].
+    exists so. split; [apply in_rev in Hso1; exact Hso1|].
+    rewrite Hp1 in Hview. exact (Hview i Hfi).
+Qed.
+
+
+(* ------------------------------------------------------------------------------------------------
+   Non-vacuity: a concrete well-formed document (catalog, page tree, a page with a dangling /Foo 99 0 R
+   that the writer drops, a content stream whose stale /Length is replaced), and what the strict reader
+   returns on the model's output for it. *)
+Definition ex_doc : doc :=
+  {| d_objects :=
+       [ (10, {| i_val := ODict [([80; 97; 103; 101; 115], ORef 20); ([84; 121; 112; 101], OName [67; 97; 116; 97; 108; 111; 103])];
+                 i_stream := None |});
+         (20, {| i_val := ODict [([67; 111; 117; 110; 116], OInt 1); ([75; 105; 100; 115], OArr [ORef 30]);
+                                 ([84; 121; 112; 101], OName [80; 97; 103; 101; 115])];
+                 i_stream := None |});
+         (30, {| i_val := ODict [([67; 111; 110; 116; 101; 110; 116; 115], ORef 40);
+                                 ([70; 111; 111], ORef 99);
+                                 ([80; 97; 114; 101; 110; 116], ORef 20);
+                                 ([84; 121; 112; 101], OName [80; 97; 103; 101])];
+                 i_stream := None |});
+         (40, {| i_val := ODict [([76; 101; 110; 103; 116; 104], OInt 3)];
+                 i_stream := Some [104; 101; 108; 108; 111; 10; 255; 0] |}) ];
+     d_trailer := [([82; 111; 111; 116], ORef 10); ([83; 105; 122; 101], OInt 41)];
+     d_version := [49; 46; 51];
+     d_id1 := [1; 2; 254]; d_id2 := [] |}.
+
+Ltac in_cases H := repeat (destruct H as [H|H]; [try (inversion H; subst; clear H)|]); try (destruct H).
+
+Example wf_doc_example : wf_doc ex_doc.
+Proof.
+  constructor.
+  - (* closed *)
+    unfold doc_closed, closed. change (graph_of ex_doc) with [(10, [20]); (20, [30]); (30, [40; 20]); (40, @nil N)].
+    change (roots_of ex_doc) with [10]. cbn [map fst]. split; [|split].
+    + repeat constructor; cbn; intros H; in_cases H; discriminate.
+    + intros x H. in_cases H. cbn. tauto.
+    + intros k cs y H Hy. in_cases H; in_cases Hy; cbn; tauto.
+  - unfold wf_doc_objs, ex_doc. cbn [d_objects].
+    repeat constructor; cbn; try (intros H; in_cases H; discriminate); try lia; try exact I.
+  - cbn. repeat split; try (intros H; in_cases H; discriminate); repeat constructor; lia.
+  - intros k i H Hs. cbn [d_objects ex_doc] in H. in_cases H; cbn in Hs; try congruence. eexists. reflexivity.
+  - intros k i data H Hs. cbn [d_objects ex_doc] in H. in_cases H; cbn in Hs; try discriminate.
+    injection Hs as <-. repeat constructor; lia.
+  - exists 49, 51. repeat split.
+  - cbn. split; repeat constructor; lia.
+  - exists 10. eexists. repeat split.
+  - exists 41%Z. reflexivity.
+  - cbn [d_trailer ex_doc map fst]. split; [|split].
+    + repeat constructor; cbn; intros H; in_cases H; discriminate.
+    + intros H. in_cases H; discriminate.
+    + intros k i dd H Hv. cbn [d_objects ex_doc] in H. in_cases H; cbn in Hv; injection Hv as <-;
+        cbn [map fst]; repeat constructor; cbn; intros H; in_cases H; discriminate.
+  - cbn. intros H. in_cases H; discriminate.
+  - cbn. intros H. in_cases H; discriminate.
+Qed.
+
+(* the strict reader on the model's output for ex_doc: version, trailer (with /Size 5 and the /ID pair),
+   the four objects under their new numbers with renumbered references, /Foo dropped, /Length 8 and the
+   stream bytes, and the accounted regions (header, four bodies, section; one EOL gap before startxref) *)
+Example write_read_strict_example :
+  match read_strict (wm_out ex_doc) with
+  | RsOk f =>
+      sf_version f = [49; 46; 51] /\
+      sf_trailer f = [([82; 111; 111; 116], SpRef 1 0); ([83; 105; 122; 101], SpInt 5);
+                      ([73; 68], SpArr [SpStr [1; 2; 254]; SpStr []])] /\
+      map (sobj_view (wm_out ex_doc)) (rev (sf_objs f))
+      = [(1, 0, SpDict [([80; 97; 103; 101; 115], SpRef 2 0);
+                        ([84; 121; 112; 101], SpName [67; 97; 116; 97; 108; 111; 103])], None);
+         (2, 0, SpDict [([67; 111; 117; 110; 116], SpInt 1); ([75; 105; 100; 115], SpArr [SpRef 3 0]);
+                        ([84; 121; 112; 101], SpName [80; 97; 103; 101; 115])], None);
+         (3, 0, SpDict [([67; 111; 110; 116; 101; 110; 116; 115], SpRef 4 0);
+                        ([80; 97; 114; 101; 110; 116], SpRef 2 0);
+                        ([84; 121; 112; 101], SpName [80; 97; 103; 101])], None);
+         (4, 0, SpDict [([76; 101; 110; 103; 116; 104], SpInt 8)], Some [104; 101; 108; 108; 111; 10; 255; 0])] /\
+      sf_regions f = [(0, 15); (15, 64); (64, 123); (123, 186); (186, 242); (242, 401); (402, 422)]
+  | RsErr _ _ => False
+  end.
+Proof. vm_compute. repeat split. Qed.
+
+(* and the theorem applies to it *)
+Example write_read_strict_applies :
+  exists f, read_strict (wm_out ex_doc) = RsOk f /\ sf_trailer f = expected_trailer ex_doc
+            /\ length (sf_objs f) = 4%nat.
+Proof.
+  destruct (write_read_strict_lemma ex_doc wf_doc_example) as [f [H1 [_ [_ [_ [H2 [H3 _]]]]]]].
+  - vm_compute. reflexivity.
+  - exists f. repeat split; [exact H1 | exact H2 | rewrite H3; vm_compute; reflexivity].
+Qed.
